@@ -340,6 +340,7 @@ Definition plain_frame (sc : scope) (s : spec) (f : frame) : Prop :=
 Ltac rf :=
   repeat first
     [ apply rf_ret | apply rf_fail | apply rf_unmodelled | apply rf_type_err
+    | solve [let E := fresh "E" in intros ? ? ? ? E; discriminate E]
     | apply rf_bind; intros | apply rf_catch; intros
     | match goal with
       | |- returns_frame (match ?x with _ => _ end) _ => destruct x
